@@ -98,17 +98,12 @@ pub fn lattice_energy(shape: &LJShape2, group: usize, p: &Params, rho: f64, max_
 /// the molecule moved by the harness's own affine map (particle parameters untouched); the package's
 /// LJShape2::transform is not used by the oracle
 fn place(shape: &LJShape2, c: &Aff) -> LJShape2 {
-    LJShape2 {
-        name: shape.name.clone(),
-        items: shape
-            .items
-            .iter()
-            .map(|a| {
-                let q = c.apply(crate::geom::P::new(a.position.x, a.position.y));
-                packing::LJ2 { position: nalgebra::Point2::new(q.x, q.y), sigma: a.sigma, epsilon: a.epsilon, cutoff: a.cutoff }
-            })
-            .collect(),
+    let mut moved = shape.clone();
+    for a in moved.items.iter_mut() {
+        let q = c.apply(crate::geom::P::new(a.position.x, a.position.y));
+        a.position = nalgebra::Point2::new(q.x, q.y);
     }
+    moved
 }
 
 /// the same for any list of placed copies (several occupied sites)
@@ -124,8 +119,8 @@ pub fn lattice_energy_copies(shape: &LJShape2, lat: &Lattice, copies: &[Aff], rh
             for y in shape.items.iter() {
                 if let (Some(cx), Some(cy)) = (x.cutoff, y.cutoff) {
                     let rc = 0.5 * (cx + cy);
-                    let a = packing::LJ2 { position: nalgebra::Point2::new(0., 0.), sigma: x.sigma, epsilon: x.epsilon, cutoff: None };
-                    let b = packing::LJ2 { position: nalgebra::Point2::new(rc, 0.), sigma: y.sigma, epsilon: y.epsilon, cutoff: None };
+                    let a = crate::statejson::lj2(0., 0., x.sigma, x.epsilon, None);
+                    let b = crate::statejson::lj2(rc, 0., y.sigma, y.epsilon, None);
                     let e = a.energy(&b).abs();
                     if e.is_finite() {
                         m += e;
